@@ -347,8 +347,11 @@ def run_property(prop: str, tier: str, check: Callable, floors: Dict[str, int], 
         col = Collector(repo, prop, tier)
         check(col)
         counts = col.rule_counts()
+        # a failed obligation is positive evidence whatever the instance count; the floor guards vacuous *passes* only
+        known_keys = load_known()[0].get(prop, {})
+        has_violation = any(not o.ok and not o.note and o.key not in known_keys for o in col.obs)
         for rule, floor in floors.items():
-            if counts.get(rule, 0) < floor:
+            if counts.get(rule, 0) < floor and not has_violation:
                 raise AnalysisError(
                     f"instance floor: rule {rule} produced {counts.get(rule, 0)} obligations, "
                     f"expected at least {floor} (a rule that matches nothing would pass vacuously)")
